@@ -218,6 +218,66 @@ def main(tier: str) -> int:
         if abs(lg - round(lg)) > 1e-9:
             add({"op": "bits_from_h", "l": C.rat(left), "r": C.rat(right), "h": C.rat(hreq)}, ("bits_from_h", {"left": left, "right": right, "h": hreq}, b))
 
+    # ---- the TRANSLATED vectorised kernels (TFV/Generated/Src/{SG,GC}_*.lean, read through TFV.Model.Np) evaluated by Lean on concrete
+    #      arrays against the real numpy code on the same arrays: this is what ties my reading of the numpy calls to numpy
+    import subprocess
+    gfit = GrayCode().fit(left_border=-1.0, right_border=1.0, num_variables=2, bits_per_variable=np.array([5, 3], dtype=np.int64))
+    sfit = SamplingGrid().fit(left_border=-1.0, right_border=1.0, num_variables=2, bits_per_variable=np.array([5, 3], dtype=np.int64))
+    pw = [int(v) for v in gfit._powers]
+    cases = []
+    for _ in range(90 if tier == "quick" else 600):
+        nr, nc = rng.randint(0, 4), rng.randint(0, 6)
+        kind = rng.choice(["bit_to_int", "bit_to_int_p", "gray_to_bit", "bit_to_gray", "sg_decode", "gc_decode"])
+        if kind in ("bit_to_int_p", "sg_decode", "gc_decode"):
+            nc = min(nc, len(pw) + 1)
+        lo, hi = (0, 1) if kind != "gray_to_bit" or rng.random() < 0.5 else (-1, 2)      # logical_xor reads any non-zero entry as True
+        M = np.array([[rng.randint(lo, hi) for _ in range(nc)] for _ in range(nr)], dtype=np.int64).reshape(nr, nc)
+        cases.append((kind, M))
+
+    def real(kind, M):
+        try:
+            if kind == "bit_to_int":
+                return [int(v) for v in SamplingGrid.bit_to_int(M)]
+            if kind == "bit_to_int_p":
+                return [int(v) for v in SamplingGrid.bit_to_int(M, np.array(pw, dtype=np.int64))]
+            if kind == "gray_to_bit":
+                r = GrayCode.gray_to_bit(M)
+                return [int(r.shape[1])] + [[int(v) for v in row] for row in r]
+            if kind == "bit_to_gray":
+                r = GrayCode.bit_to_gray(M)
+                return [int(r.shape[1])] + [[int(v) for v in row] for row in r]
+            if kind == "sg_decode":
+                return [int(v) for v in sfit._decode(M)]
+            return [int(v) for v in gfit._decode(M)]
+        except Exception:
+            return "none"
+    lean_call = {"bit_to_int": "showV (SG_bit_to_int {m} none)", "bit_to_int_p": "showV (SG_bit_to_int {m} (some {p}))", "gray_to_bit": "showM (GC_gray_to_bit {m})",
+                 "bit_to_gray": "showM (GC_bit_to_gray {m})", "sg_decode": "showV (SG_decode {p} {m})", "gc_decode": "showV (GC_decode {p} {m})"}
+    lines = ["import TFV.Generated.Src.SG_decode", "import TFV.Generated.Src.GC_decode", "import TFV.Generated.Src.GC_bit_to_gray", "open TFV TFV.Generated.Src",
+             "def showV : Option (List Int) → String | none => \"none\" | some v => toString v",
+             "def showM : Option Np.Mat → String | none => \"none\" | some m => toString (([(m.ncols : Int)] :: m.rows))"]
+    for kind, M in cases:
+        m = "{ ncols := %d, rows := %s }" % (M.shape[1], "[" + ", ".join("[" + ", ".join(str(int(v)) for v in row) + "]" for row in M) + "]")
+        lines.append("#eval IO.println (" + lean_call[kind].format(m=m, p="[" + ", ".join(map(str, pw)) + "]") + ")")
+    audit = C.LEAN / "TFV" / "Audit" / "C10_np.lean"
+    audit.parent.mkdir(parents=True, exist_ok=True)
+    audit.write_text("\n".join(lines) + "\n")
+    with C.LeanLock():
+        pr = subprocess.run(["lake", "env", "lean", str(audit.relative_to(C.LEAN))], cwd=C.LEAN, capture_output=True, text=True, timeout=900)
+    got = [l.strip() for l in pr.stdout.splitlines() if l.strip()]
+    chk.obligation("the translated vectorised kernels evaluate (lake env lean TFV/Audit/C10_np.lean)", pr.returncode == 0 and len(got) == len(cases), (pr.stdout + pr.stderr)[-600:])
+    if pr.returncode == 0 and len(got) == len(cases):
+        for (kind, M), g in zip(cases, got):
+            r = real(kind, M)
+            if kind in ("gray_to_bit", "bit_to_gray") and r != "none":
+                r = [[r[0]]] + r[1:]
+            want = "none" if r == "none" else str(r).replace(" ", "")
+            chk.count("np_kernel_" + kind + ("_error" if want == "none" else ""))
+            if g.replace(" ", "") == want:
+                chk.agree("np_kernel:" + kind)
+            else:
+                chk.disagree("np_kernel:" + kind, {"input": {"kernel": kind, "array": M.tolist(), "shape": list(M.shape)}, "impl": r, "model": g})
+
     try:
         outs = C.lean_driver([json.dumps(o) for o in ops])
     except Exception as e:
